@@ -52,9 +52,18 @@ func counterSrc(off int) byte { return tape.CounterSrc(off) }
 
 var (
 	cCounter = content{"counter", counterSrc}
-	cZero    = content{"all-00", func(int) byte { return 0 }}
-	cOnes    = content{"all-FF", func(int) byte { return 0xff }}
+	cZero    = content{"all-00", func(off int) byte { return finite(off, 0) }}
+	cOnes    = content{"all-FF", func(off int) byte { return finite(off, 0xff) }}
 )
+
+// finite: constant backgrounds hold for the first 16 KiB of a tape only, then the counter stream takes over — an
+// implementation that rejects degenerate draws (a zero id, a scalar out of range) and draws again must terminate.
+func finite(off int, bg byte) byte {
+	if off >= 1<<14 {
+		return tape.CounterSrc(off)
+	}
+	return bg
+}
 
 // distinguished: background bg everywhere, value v at absolute offset target.
 func distinguished(target int, v, bg byte) content {
@@ -62,7 +71,7 @@ func distinguished(target int, v, bg byte) content {
 		if off == target {
 			return v
 		}
-		return bg
+		return finite(off, bg)
 	}}
 }
 
